@@ -56,7 +56,8 @@ CHECKS = {
     text='Exhaustive bounded exploration, driven by CrossHair/z3 path search, of the real port-selection code: every pair of selections '
          '(wildcard or any non-empty subset of a 4-name pool incl. an unknown name and a name of the other side) against every port set, '
          'per side through PortsSemanticsCfg.match and whole configurations through the real Builder.build, compared with a reference '
-         'resolver written from the property (accept/reject agreement, error type AdvShellError, resulting semantics, injected ports).',
+         'resolver written from the property (accept/reject agreement, error type AdvShellError, resulting semantics, injected ports); the provides side also '
+         'in the presence of a multi-client setting on either port or an unknown port (h_build_mc).',
     note='Names are opaque (==/hash), so the pool bounds distinct names. Each explored path fixes the int-coded choice vector (solver-checked) '
          'and runs the real code on it; explicit naming of an injected port is a stated don\'t-care. <=2 ports per side.',
     technique='symbolic path exploration (CrossHair + z3) over an int-coded configuration family, real code executed per path'),
@@ -85,9 +86,10 @@ CHECKS = {
  'C08': dict(
     cat='model_checking', ref='DESIGN.md §3 C08',
     text='Hash seed and set insertion order are turned into explicit solver-chosen variables (iteration-order permutation of every explicit '
-         'name set, and of the sets the library builds itself): for 5 configuration templates x all permutations the rendered configuration '
+         'name set, and of the sets the library builds from them): for 7 configuration templates x all permutations the rendered configuration '
          'text, match result and the complete Builder.build output (names, contents, hashes) must be identical. Counterexamples are confirmed '
-         'by child interpreters under PYTHONHASHSEED=0..31. MD5 clause: exploration only (hashlib is a C boundary).',
+         'by child interpreters under PYTHONHASHSEED=0..31. Every run also builds all 237 family cases under 8 (quick) / 32 (thorough) real hash seeds in fresh '
+         'interpreters (validation of the iteration-order assumption for sets the library builds internally). MD5 clause: exploration only (hashlib is a C boundary).',
     note='Assumes seed/insertion order act only through set/dict iteration order; name `set` in two dznpy modules is bound to an order-controlled '
          'set subclass during the build harness. MD5 identity checked on realised witnesses against an independent RFC 1321 implementation.',
     technique='symbolic path exploration (CrossHair + z3) with iteration order as a symbolic permutation; replay across real hash seeds'),
@@ -112,8 +114,8 @@ CHECKS = {
     technique='symbolic path exploration (CrossHair + z3) over the case family; inductive step with global-state invariant'),
  'C13': dict(
     cat='model_checking', ref='DESIGN.md §3 C13',
-    text='Every valid case of the family (11 models x port configurations x origins x prefix = 168) must build the complete 8-file set; every '
-         'applicable single fault (26 kinds: encapsulee, port type, selections, every multi-client field) must fail with a diagnosed error; '
+    text='Every valid case of the family (13 models x port configurations x origins x prefix = 237; x verbose on/off x creator_info present/absent) must build the complete 8-file set; every '
+         'applicable single fault (28 kinds, x verbose on/off: encapsulee, port type, selections, every multi-client field) must fail with a diagnosed error; '
          'internal errors (KeyError/AttributeError/IndexError/RecursionError/interpreter TypeError) are violations. A hunt harness drives symbolic '
          'encapsulee/multi-client names through the real build (it found the out-event-as-release defect).',
     note='Diagnosed = library error types or an explicit `raise ValueError/TypeError` with message inside dznpy (lenient reading, stated). '
